@@ -139,7 +139,7 @@ pub fn install_panic_hook() {
         } else {
             "<non-string panic>".into()
         };
-        if !info.can_unwind() {
+        if msg.contains("unsafe precondition(s) violated") {
             // about to abort (e.g. a violated unsafe precondition): leave the reason on stderr for the runner
             eprintln!("non-unwinding panic: {} @ {}", msg, loc);
         }
